@@ -43,6 +43,12 @@ func init() {
 
 		return C16Load(seed, g, it, a[3], len(a) > 4 && a[4] == "true")
 	}
+	Commands["hashstorm"] = func(a []string) int {
+		g, _ := strconv.Atoi(a[0])
+		n, _ := strconv.Atoi(a[1])
+
+		return C16HashStorm(g, n, a[2])
+	}
 	Commands["randstorm"] = func(a []string) int {
 		g, _ := strconv.Atoi(a[0])
 		n, _ := strconv.Atoi(a[1])
@@ -57,7 +63,7 @@ func init() {
 			"shared *Element (affine, λ-scaled, identity forms), shared *Scalar, shared message/DST/encoding slices in all layouts (len=cap, spare capacity 1/8/64, interior sub-slice, zero-length of a non-empty array, DST lengths on both sides of 255), shared [32]byte arrays. " +
 			"Each program starts by calling every function once in the same order, and half of the runs are concurrent-first (nothing of the library has run in the process before the goroutines start), so that first uses coincide. Every exported function and method is in the mix (the exported map-to-curve functions SSWU / IsogenySecp256k13iso / Secp256Polynomial with the exceptional inputs, writes into returned slices, ground-truth probes whose expected values come from the oracle rather than from the solo pass, constructors, Base, Identity, Set, Copy, Add, Subtract, Double, Negate, Multiply, Equal, IsIdentity, all encoders/decoders, HashToGroup, EncodeToGroup, HashToScalar, all scalar operations, Pow, CSelect, LessOrEqual, Bits, Random, Order). " +
 			"Oracle: zero race-detector reports with a frame of the module under test; every call's result equals the result of the same call sequence run alone beforehand; the package-level identity and error variables are unchanged. " +
-			"A storm of 16 goroutines x thousands of concurrent Random calls on the real entropy source must not return any scalar twice. The detector is armed first with a deliberate race in harness code and the run is inconclusive if that is not reported. evaluations = API calls made concurrently; non-trivial = calls taking a shared argument; distinct = distinct (function, shared-argument) pairs exercised concurrently.",
+			"Two hash storms (16 and 48 goroutines hashing with shared short and several different oversize DSTs, results compared with the oracle). A storm of 16 goroutines x thousands of concurrent Random calls on the real entropy source must not return any scalar twice. The detector is armed first with a deliberate race in harness code and the run is inconclusive if that is not reported. evaluations = API calls made concurrently; non-trivial = calls taking a shared argument; distinct = distinct (function, shared-argument) pairs exercised concurrently.",
 		Assume: []string{
 			"the race detector reports only conflicting accesses it actually observes without an intervening happens-before edge; interleavings are sampled, not enumerated",
 			"a library without goroutines or locks can only violate this through a write into an argument or a global, which is a single conflicting access that any schedule exposes",
@@ -736,6 +742,76 @@ func C16RandStorm(goroutines, calls int, out string) int {
 	return 0
 }
 
+// C16HashStorm: many goroutines hash at the same time with SHARED message / DST slices (short and several different
+// oversize DSTs); every result is compared with the oracle's value computed beforehand.
+func C16HashStorm(goroutines, calls int, out string) int {
+	r := gen.New(uint64(goroutines*1000+calls), "C16/hashstorm")
+
+	type in struct{ m, d, h2s, h2g, e2g []byte }
+
+	var ins []in
+
+	for _, dl := range []int{300, 300, 256, 257, 1000, 400, 20, 49, 255, 700} {
+		m, d := r.Bytes(5+len(ins)), r.Bytes(dl)
+		hp, _ := oracle.HashToCurve(m, d)
+		ep, _ := oracle.EncodeToCurve(m, d)
+		ins = append(ins, in{m, d, oracle.Bytes32(oracle.HashToScalar(m, d)), oracle.EncC(hp), oracle.EncC(ep)})
+	}
+
+	bad := make([]string, goroutines)
+	line := mon.StartLine(goroutines)
+
+	var wg sync.WaitGroup
+
+	for g := 0; g < goroutines; g++ {
+		wg.Add(1)
+
+		go func(g int) {
+			defer wg.Done()
+			line()
+
+			for i := 0; i < calls && bad[g] == ""; i++ {
+				x := ins[(g+i)%len(ins)]
+
+				switch (g + i/3) % 3 {
+				case 0:
+					if !bytes.Equal(secp256k1.HashToScalar(x.m, x.d).Encode(), x.h2s) {
+						bad[g] = fmt.Sprintf("HashToScalar with a shared %d-byte DST returned a wrong value under concurrency", len(x.d))
+					}
+				case 1:
+					if !bytes.Equal(secp256k1.HashToGroup(x.m, x.d).Encode(), x.h2g) {
+						bad[g] = fmt.Sprintf("HashToGroup with a shared %d-byte DST returned a wrong value under concurrency", len(x.d))
+					}
+				default:
+					if !bytes.Equal(secp256k1.EncodeToGroup(x.m, x.d).Encode(), x.e2g) {
+						bad[g] = fmt.Sprintf("EncodeToGroup with a shared %d-byte DST returned a wrong value under concurrency", len(x.d))
+					}
+				}
+			}
+		}(g)
+	}
+
+	wg.Wait()
+
+	res := &c16ChildResult{Goroutines: goroutines, Iters: calls, GOMAXPROCS: runtime.GOMAXPROCS(0), Calls: int64(goroutines * calls), SharedCalls: int64(goroutines * calls),
+		PerFn: map[string]int64{"HashToScalar/HashToGroup/EncodeToGroup(storm)": int64(goroutines * calls)}}
+
+	for _, b := range bad {
+		if b != "" && len(res.Mismatches) < 5 {
+			res.Mismatches = append(res.Mismatches, b)
+		}
+	}
+
+	res.Done = true
+	b, _ := json.Marshal(res)
+
+	if err := os.WriteFile(out, b, 0o644); err != nil {
+		return 3
+	}
+
+	return 0
+}
+
 // C16Canary commits a deliberate data race on harness memory, to prove that the detector is armed.
 func C16Canary() int {
 	var (
@@ -889,6 +965,7 @@ func c16Parent(p *mon.Prop, pc *mon.ParentCtx) *mon.Aggregate {
 		g, procs, iters int
 		concFirst       bool
 		storm           bool
+		hash            bool
 	}
 
 	var cfgs []cfg
@@ -902,7 +979,7 @@ func c16Parent(p *mon.Prop, pc *mon.ParentCtx) *mon.Aggregate {
 			}
 		}
 	} else {
-		cfgs = []cfg{{2, 2, 1500, false, false}, {4, 4, 800, true, false}, {16, 16, 300, false, false}, {64, 16, 100, true, false}, {8, 2, 500, true, false}, {16, 4, 300, false, false}, {8, 8, 300, true, false}, {32, 16, 100, true, false}}
+		cfgs = []cfg{{g: 2, procs: 2, iters: 1500}, {g: 4, procs: 4, iters: 800, concFirst: true}, {g: 16, procs: 16, iters: 300}, {g: 64, procs: 16, iters: 100, concFirst: true}, {g: 8, procs: 2, iters: 500, concFirst: true}, {g: 16, procs: 4, iters: 300}, {g: 8, procs: 8, iters: 300, concFirst: true}, {g: 32, procs: 16, iters: 100, concFirst: true}}
 	}
 
 	// plus one storm of concurrent Random calls (duplicate detection)
@@ -912,6 +989,7 @@ func c16Parent(p *mon.Prop, pc *mon.ParentCtx) *mon.Aggregate {
 	}
 
 	cfgs = append(cfgs, cfg{g: 16, procs: 16, iters: stormCalls, storm: true})
+	cfgs = append(cfgs, cfg{g: 16, procs: 16, iters: stormCalls / 30, hash: true}, cfg{g: 48, procs: 16, iters: stormCalls / 60, hash: true})
 
 	type outcome struct {
 		c     cfg
@@ -944,6 +1022,10 @@ func c16Parent(p *mon.Prop, pc *mon.ParentCtx) *mon.Aggregate {
 				args = []string{"randstorm", fmt.Sprint(cf.g), fmt.Sprint(cf.iters), out}
 			}
 
+			if cf.hash {
+				args = []string{"hashstorm", fmt.Sprint(cf.g), fmt.Sprint(cf.iters), out}
+			}
+
 			logp, err, timed := runChild(
 				args,
 				[]string{"GORACE=halt_on_error=0 log_path=" + race, fmt.Sprintf("GOMAXPROCS=%d", cf.procs)},
@@ -969,7 +1051,7 @@ func c16Parent(p *mon.Prop, pc *mon.ParentCtx) *mon.Aggregate {
 	var configs []string
 
 	for i, o := range outs {
-		configs = append(configs, fmt.Sprintf("G=%d,GOMAXPROCS=%d,iters=%d,seed=%d,concurrent-first=%v,random-storm=%v", o.c.g, o.c.procs, o.c.iters, o.seed, o.c.concFirst, o.c.storm))
+		configs = append(configs, fmt.Sprintf("G=%d,GOMAXPROCS=%d,iters=%d,seed=%d,concurrent-first=%v,random-storm=%v,hash-storm=%v", o.c.g, o.c.procs, o.c.iters, o.seed, o.c.concFirst, o.c.storm, o.c.hash))
 
 		if o.timed {
 			agg.Incon("race workload %d: watchdog fired", i)
